@@ -343,4 +343,102 @@ theorem language_scan_reports :
         exact ⟨hnj, hcs, hver⟩
       simp [reported, hfil', hg]
 
+/-! ## RHEL: repositories instead of distributions -/
+
+/-- The key `rhel/repositoryscanner.go` stamps on scanned repositories (and the
+    matcher's Filter tests) is the key `rhel/vex` stamps on advisories; the
+    matcher's Query() compares that key and the package module, each with the
+    same field of the advisory; the container matcher's Filter accepts the
+    `rhcc.GoldRepo` the scanner (and, by reference, the VEX parser) uses, and
+    its Query() compares the repository name. -/
+theorem rhel_table_checked :
+    JoinReleases.rhel.repositoryKey = JoinReleases.rhel.vexRepoKey ∧
+    JoinMatchers.rhel.filter.eval { repo := some { key := JoinReleases.rhel.repositoryKey } } = some true ∧
+    JoinMatchers.rhel.filter.nameFree = true ∧
+    JoinMatchers.rhel.query.map constraintTyped =
+      [some (.pkgModule, .pkgModule), some (.repo .key, .repo .key)] ∧
+    JoinMatchers.rhel.queryOpt = [[72, 97, 115, 70, 105, 120, 101, 100, 73, 110, 86, 101, 114, 115, 105, 111, 110]] ∧
+    JoinMatchers.rhel.versionFilter = false ∧
+    JoinMatchers.rhcc.filter.eval { repo := some JoinReleases.rhel.goldRepo } = some true ∧
+    JoinMatchers.rhcc.query.map repoConstraint = [some .name] := by
+  decide +kernel
+
+/-- A package found in a repository the RHEL repository scanner stamped (any
+    CPE name) and a VEX advisory of the same module are joined whenever the
+    advisory names the package, whatever the CPE: the CPE relation and the
+    version are then decided by the matcher's `Vulnerable`. -/
+theorem rhel_scan_reports (r : Rec) (v : Vuln) (x : Repo)
+    (hr : r.repo = some x) (hk : x.key = JoinReleases.rhel.repositoryKey)
+    (hv : v.repo.key = JoinReleases.rhel.vexRepoKey) (hm : v.pkgModule = r.pkg.module)
+    (hn : nameJoins r v = true) (inRange vulnerable : Bool) :
+    reported JoinMatchers.rhel false inRange vulnerable r v = .reported vulnerable := by
+  obtain ⟨hkey, _, _, hq, _, hvf, _, _⟩ := rhel_table_checked
+  have hfil : JoinMatchers.rhel.filter.eval r = some true := by
+    have d1 : decodeRec [82, 101, 112, 111, 115, 105, 116, 111, 114, 121, 46, 75, 101, 121] = some (.repo .key) := by decide
+    have hk' : x.key = [114, 104, 101, 108, 45, 99, 112, 101, 45, 114, 101, 112, 111, 115, 105, 116, 111, 114, 121] := by
+      rw [hk]; decide
+    simp [JoinMatchers.rhel, FExpr.eval, recField, d1, RField.get, RpField.get, hr, hk']
+  have hcs : ∀ c ∈ JoinMatchers.rhel.query, constraintAgree c r v = true := by
+    have hq1 : constraintTyped [80, 97, 99, 107, 97, 103, 101, 77, 111, 100, 117, 108, 101] = some (.pkgModule, .pkgModule) := by decide
+    have hq2 : constraintTyped [82, 101, 112, 111, 115, 105, 116, 111, 114, 121, 75, 101, 121] = some (.repo .key, .repo .key) := by decide
+    intro c hc
+    have : c = [80, 97, 99, 107, 97, 103, 101, 77, 111, 100, 117, 108, 101] ∨ c = [82, 101, 112, 111, 115, 105, 116, 111, 114, 121, 75, 101, 121] := by
+      simpa [JoinMatchers.rhel] using hc
+    rcases this with rfl | rfl
+    · rw [constraintAgree_typed _ _ _ hq1]
+      simp [RField.get, VField.get, hm]
+    · rw [constraintAgree_typed _ _ _ hq2]
+      simp [RField.get, VField.get, RpField.get, hr, hk, hv, hkey]
+  have hg : getQuery JoinMatchers.rhel.query JoinMatchers.rhel.versionFilter inRange r v = .ok true := by
+    rw [getQuery_true_iff]
+    exact ⟨hn, hcs, by simp [versionOk, hvf]⟩
+  rw [hvf] at hg
+  simp [reported, hfil, hg, hvf]
+
+/-! ## structure of the sources the join relies on -/
+
+/-- The Debian and Ubuntu distribution scanners construct their result with
+    `newDist`, not with `mkDist`: scanning an image does not write the release
+    map the updater reads (see the fix recorded in findings/C04.txt), and
+    `mkDist` records exactly `newDist` of its own arguments (checked by the
+    extractor), keyed by its first parameter. -/
+theorem scanners_do_not_record :
+    JoinReleases.debian.scannerCtor = [110, 101, 119, 68, 105, 115, 116] ∧
+    JoinReleases.ubuntu.scannerCtor = [110, 101, 119, 68, 105, 115, 116] ∧
+    JoinReleases.debian.mkDistKey = [112, 97, 114, 97, 109, 32, 48] ∧
+    JoinReleases.ubuntu.mkDistKey = [112, 97, 114, 97, 109, 32, 48] := by
+  decide +kernel
+
+/-- Every release an updater set creates an updater for has a Distribution in
+    `releaseToDist` (no advisory is stamped with the empty Distribution), and
+    every OVAL platform of Oracle's table names the release of the
+    Distribution it maps to (`Oracle Linux <Version>`). -/
+theorem updater_releases_have_distribution :
+    (∀ rel ∈ JoinReleases.aws.releases, ∃ var, lookupFirst JoinReleases.aws.releaseToDist rel = some var ∧
+        (lookupFirst JoinReleases.aws.dists var).isSome = true) ∧
+    (∀ rel ∈ JoinReleases.photon.releases, ∃ var, lookupFirst JoinReleases.photon.releaseToDist rel = some var ∧
+        (lookupFirst JoinReleases.photon.dists var).isSome = true) ∧
+    (∀ p ∈ JoinReleases.oracle.platformToDist, ∃ d, oraclePlatformDist p.1 = some d ∧ p.1 = oraclePlatform d.version) := by
+  decide +kernel
+
+def dflt (s : Bytes) : Bool := JoinMatchers.defaultSet.contains s
+
+/-- matchers/defaults registers a matcher for every distribution and language
+    ecosystem of this property … -/
+theorem default_matchers_cover :
+    dflt [97, 108, 112, 105, 110, 101] = true ∧ dflt [97, 119, 115] = true ∧ dflt [100, 101, 98, 105, 97, 110] = true ∧
+    dflt [117, 98, 117, 110, 116, 117] = true ∧ dflt [111, 114, 97, 99, 108, 101] = true ∧ dflt [112, 104, 111, 116, 111, 110] = true ∧
+    dflt [115, 117, 115, 101] = true ∧ dflt [114, 104, 101, 108] = true ∧ dflt [114, 104, 99, 99] = true ∧
+    dflt [112, 121, 116, 104, 111, 110] = true ∧ dflt [106, 97, 118, 97] = true ∧ dflt [114, 117, 98, 121] = true ∧
+    dflt [103, 111, 98, 105, 110] = true := by
+  decide +kernel
+
+/-- … except npm: `nodejs.Matcher` exists and agrees with the OSV `npm`
+    repository (`language_table_checked`), but it is not in the default set, so
+    with the defaults an npm advisory reaches no package (finding
+    `npm-not-in-defaults`). -/
+theorem default_matchers_cover_npm_counterexample :
+    dflt [110, 111, 100, 101, 106, 115] = false := by
+  decide +kernel
+
 end ClairModel.Props.C04
